@@ -35,6 +35,7 @@ type Case struct {
 	M     string // minting provisioner (name)
 	TokOp string // operation the token is minted for
 	Op    string // operation it is presented to
+	CT    string `json:",omitempty"` // SSH certificate type the request asks for (context value read by GCP.AuthorizeSSHSign)
 	Muts  []Mut  `json:",omitempty"`
 }
 
@@ -59,6 +60,7 @@ type draft struct {
 	hdr    map[string]any
 	claims map[string]any
 	alg    string // ES256 | HS256 | none
+	hmacKey []byte // AWS: the token is HS256 under the identity-document signature it carries
 	key    any    // private key (ES256) or secret (HS256)
 	auds   []string
 }
@@ -110,6 +112,18 @@ func (w *World) popCert(variant string, key crypto.Signer) *ssh.Certificate {
 		cert.ValidAfter, cert.ValidBefore = now, now+1
 	case "selfsigned":
 		signer = must(ecdsa.GenerateKey(elliptic.P256(), rand.Reader))
+	case "retired", "fedsigned", "userretired", "userfed", "hostbyuserretired":
+		// signed by a key from ssh.keys: a rotated-out key of this CA (roots) / a federated CA's key (not roots)
+		want := map[string][2]string{"retired": {"h", "r"}, "fedsigned": {"h", "f"}, "userretired": {"u", "r"}, "userfed": {"u", "f"}, "hostbyuserretired": {"u", "r"}}[variant]
+		if variant == "userretired" || variant == "userfed" {
+			cert.CertType = ssh.UserCert
+		}
+		signer = nil
+		for _, rk := range w.keyring {
+			if rk.cls == want[1] && rk.user == (want[0] == "u") {
+				signer = rk.signer
+			}
+		}
 	}
 	if signer == nil { // no CA key of that type in this world: a foreign key signs
 		signer = must(ecdsa.GenerateKey(elliptic.P256(), rand.Reader))
@@ -204,6 +218,8 @@ func (w *World) mint(k *Case) (tok string, ok bool) {
 		delete(cl, "nbf")
 		delete(cl, "iat")
 		delete(cl, "exp")
+	case "gcp", "aws", "azure":
+		sub = w.mintCloud(p, k, d, now, host)
 	case "acme", "scep":
 		// no credential exists for these types: a throw-away key and nothing but an audience
 		d.key = must(ecdsa.GenerateKey(elliptic.P256(), rand.Reader))
@@ -211,6 +227,11 @@ func (w *World) mint(k *Case) (tok string, ok bool) {
 		cl = d.claims
 		sub = ""
 		d.auds = []string{audURL(host, k.TokOp, p.tokenID())}
+		// a token without id is recorded under the hash of its payload (c4bb6a3): keep payloads distinct,
+		// except for the exact unsigned witness {"aud":"acme/acme"} of D21
+		if _, none := hasMut(k, "alg"); !none {
+			cl["jti"] = must(randutil.Hex(16))
+		}
 	default:
 		return "", false
 	}
@@ -224,6 +245,7 @@ func (w *World) mint(k *Case) (tok string, ok bool) {
 	for _, m := range k.Muts {
 		switch m.K {
 		case "key": // sign with somebody else's key
+			d.hmacKey = nil
 			if m.S == "random" {
 				d.key = must(ecdsa.GenerateKey(elliptic.P256(), rand.Reader))
 			} else if q := w.minter(m.S); q != nil && q.jwk != nil {
@@ -328,6 +350,13 @@ func (w *World) mint(k *Case) (tok string, ok bool) {
 			}
 		}
 	}
+	// a token without jti is recorded under the hash of its payload (c4bb6a3): two such tokens minted in
+	// the same second would be one token for UseToken (C02's subject), so keep payloads distinct
+	if _, has := cl["jti"]; !has {
+		if _, witness := hasMut(k, "alg"); !(witness && (p.Ty == "acme" || p.Ty == "scep")) {
+			cl["vrf"] = must(randutil.Hex(12))
+		}
+	}
 	d.setAud()
 	// ---- serialise and sign
 	switch d.alg {
@@ -345,6 +374,9 @@ func (w *World) mint(k *Case) (tok string, ok bool) {
 			so.WithHeader(jose.HeaderKey(kk), v)
 		}
 		sk := jose.SigningKey{Algorithm: jose.ES256, Key: d.key}
+		if d.hmacKey != nil && d.alg == "ES256" {
+			sk = jose.SigningKey{Algorithm: jose.HS256, Key: d.hmacKey}
+		}
 		if d.alg == "HS256" { // the classic confusion: HMAC keyed with the provisioner's *public* key
 			sk = jose.SigningKey{Algorithm: jose.HS256, Key: w.publicBytes(p)}
 		}
@@ -503,11 +535,14 @@ func genMut(r *c.Rng, w *World, p *Prov, k *Case) Mut {
 		if p.Ty == "x5c" {
 			return Mut{K: "x5c", S: c.Pick(r, []string{"otherroot", "caleaf", "selfsigned", "nodigsig", "serverauth", "expiredleaf"})}
 		}
+		if vs, ok := cloudVariants[p.Ty]; ok {
+			return Mut{K: "cloud", S: c.Pick(r, vs)}
+		}
 		if p.Ty == "nebula" {
 			return Mut{K: "neb", S: c.Pick(r, []string{"otherca", "expired", "future", "ca-as-leaf", "curve25519"})}
 		}
 		if p.Ty == "sshpop" {
-			return Mut{K: "pop", S: c.Pick(r, []string{"user", "userforeign", "usersignedbyhost", "expired", "future", "forever", "hugeafter", "edge", "selfsigned"})}
+			return Mut{K: "pop", S: c.Pick(r, []string{"user", "userforeign", "usersignedbyhost", "expired", "future", "forever", "hugeafter", "edge", "selfsigned", "retired", "fedsigned", "userretired", "userfed", "hostbyuserretired"})}
 		}
 		return Mut{K: "claim", S: c.Pick(r, []string{"exp", "nbf", "iat", "jti", "nonce", "email"}), I: 1}
 	case 19:
@@ -523,6 +558,7 @@ func genMut(r *c.Rng, w *World, p *Prov, k *Case) Mut {
 var natural = map[string][]string{
 	"jwk": {"sign", "sign", "sshsign", "revoke", "sshrevoke"}, "x5c": {"sign", "sign", "sshsign", "revoke"},
 	"sshpop": {"sshrenew", "sshrekey", "sshrevoke"}, "oidc": {"sign", "sshsign", "revoke"}, "k8ssa": {"sign", "sshsign", "revoke"},
+	"gcp": {"sign", "sshsign"}, "aws": {"sign", "sshsign"}, "azure": {"sign", "sshsign"},
 	"acme": {"sign", "revoke"}, "scep": {"sign"}, "nebula": {"sign", "sshsign", "revoke", "sshrevoke"},
 }
 
@@ -535,6 +571,9 @@ func genCase(r *c.Rng, worlds []*World) *Case {
 	k.Op = k.TokOp
 	if r.Chance(1, 3) {
 		k.Op = c.Pick(r, ops)
+	}
+	if k.Op == "sshsign" && r.Chance(1, 4) {
+		k.CT = c.Pick(r, []string{"user", "host", "router"})
 	}
 	switch r.Intn(10) {
 	case 0, 1:
@@ -594,6 +633,18 @@ func corner(worlds []*World) []*Case {
 				out = append(out, &Case{W: wi, M: "x5c", TokOp: op, Op: op, Muts: []Mut{{K: "x5c", S: v}}})
 			}
 		}
+		for _, m := range []string{"gcp", "gcp-open", "aws", "jwk"} {
+			for _, ct := range []string{"user", "host", "router"} {
+				out = append(out, &Case{W: wi, M: m, TokOp: "sshsign", Op: "sshsign", CT: ct})
+			}
+		}
+		for _, m := range w.minters {
+			for _, v := range cloudVariants[m.Ty] {
+				for _, op := range []string{"sign", "sshsign"} {
+					out = append(out, &Case{W: wi, M: m.Name, TokOp: op, Op: op, Muts: []Mut{{K: "cloud", S: v}}})
+				}
+			}
+		}
 		for _, v := range []string{"del", "ip", "evil.example.com", "10.9.9.9"} {
 			for _, m := range []string{"nebula", "jwk", "x5c"} {
 				for _, op := range []string{"sign", "revoke"} {
@@ -609,7 +660,7 @@ func corner(worlds []*World) []*Case {
 				out = append(out, &Case{W: wi, M: "nebula", TokOp: op, Op: op, Muts: []Mut{{K: "neb", S: v}}})
 			}
 		}
-		for _, v := range []string{"forever", "hugeafter", "expired", "future", "user", "userforeign", "usersignedbyhost", "selfsigned", "edge"} {
+		for _, v := range []string{"forever", "hugeafter", "expired", "future", "user", "userforeign", "usersignedbyhost", "selfsigned", "edge", "retired", "fedsigned", "userretired", "userfed", "hostbyuserretired"} {
 			for _, op := range []string{"sshrenew", "sshrekey", "sshrevoke"} {
 				out = append(out, &Case{W: wi, M: "sshpop", TokOp: op, Op: op, Muts: []Mut{{K: "pop", S: v}}})
 				out = append(out, &Case{W: wi, M: "pop-norenew", TokOp: op, Op: op, Muts: []Mut{{K: "pop", S: v}}})
